@@ -179,6 +179,14 @@ def install():
     posixpath.realpath = realpath
 
 
+def reset():
+    """Drop whatever window is active.  For harnesses whose `with window()`
+       sits in a coroutine that a watchdog / work-budget interrupt may leave
+       suspended for ever (its __exit__ then never runs)."""
+
+    _state.win = None
+
+
 class window:
     """with fsmon.window([root]) as w: ...  -> w.outside, w.count"""
 
